@@ -13,8 +13,9 @@ Forests (the C12 harness's own generators):
   * malformed ones that no parser yields: a group first, a group after a group, EMPTY names (also directly before a group:
     `old[-1]` of '' is an IndexError), names that are only stars, '+' before a group.
 Additionally the hand-written model (`kernel.forest`) is run on the same forests; where it differs from the implementation the
-forest must contain an empty name directly before a group (the corner the model totalises: Props/PyKernel `model_differs_on_empty_name`);
-anything else is reported as a disagreement of the stream `resolve_kernel_loops.model`.
+implementation must have raised IndexError and the forest must contain a name that is empty or begins with a star (the corner
+the model totalises, `compName "" = "*"` where the code evaluates `old[-1]` of '': Props/PyKernel `model_differs_on_empty_name`,
+`model_differs_after_star_name`); anything else is reported as a disagreement of the stream `resolve_kernel_loops.model`.
 """
 import os
 import random
@@ -66,15 +67,10 @@ def kernel_text(names, struct):
     return ' '.join(out)
 
 
-def empty_before_group(forest):
-    """some group of the forest is directly preceded by the empty name"""
-    for i, t in enumerate(forest):
-        if isinstance(t, list):
-            if i > 0 and forest[i - 1] == '':
-                return True
-            if empty_before_group(t):
-                return True
-    return False
+def all_good(forest):
+    """every name of the forest, at any depth, is non-empty and does not begin with a star (`forestOk` of Lemmas/PyKernel.lean):
+    on such forests the translation IS the model (Props/PyKernel `py_resolve_kernel_loops_eq_model`)"""
+    return all(all_good(t) if isinstance(t, list) else (t != '' and t[0] != '*') for t in forest)
 
 
 def malformed(rng, n):
@@ -168,12 +164,12 @@ def source_derived_pykernel(res, proof):
     n_corner = 0
     for f, l, a, b in zip(fs, twin, impl, out[len(lines):]):
         if a != b:
-            if empty_before_group(f) and a == 'err IndexError':
+            if not all_good(f) and a == 'err IndexError':
                 n_corner += 1
             else:
                 res.disagree('resolve_kernel_loops.model', l, a, b)
     res.dist['pykernel:ops'] = len(lines)
-    res.dist['pykernel:model_differs_only_on_empty_name_before_group'] = n_corner
+    res.dist['pykernel:model_differs_only_in_the_empty_name_corner'] = n_corner
     res.dist['pykernel:raising'] = sum(1 for o in impl if o.startswith('err'))
     for l in lines[:3]:
         res.sample(l[:200])
